@@ -943,7 +943,7 @@ Section Log.
 
   (** the lines a sequence of MultiState calls adds to the log, given that no orphan line is pending
       before it: [log_of acts] when every [ADraw] with pending text is forced *)
-  Definition J (m : mstate) : Prop := ms_orphans m = [] /\ exists tg, ms_target m = TTerm tg.
+  (* [J] (no pending orphan line, terminal target) is defined in model/MultiScreen.v *)
 
   (** a member draw / println: store, then draw (forced when text lines were stored) *)
   Lemma log_store_draw now m c g idx texts bars force :
@@ -1245,8 +1245,7 @@ Qed.
 (* ------------------------------------------------------------------ the live region is the members' stored lines *)
 (** [Clean]: the live rows are exactly the stored lines of the members that are in the ordering,
     in ordering order (each member once: the ordering has no duplicates) *)
-Definition Clean (W : N) (m : mstate) (g : mghost) : Prop :=
-  mg_live g = wrap (N.to_nat W) (map lt (bar_lines_of m)).
+(* [Clean] is defined in model/MultiScreen.v *)
 
 Section CleanActs.
   Variable W H : N.
@@ -1593,11 +1592,7 @@ Section KeptRun.
 End KeptRun.
 
 (* ------------------------------------------------------------------ C02: after a forced draw the live rows are the members' lines *)
-Definition forced_member_op (s : sys) (o : op) : bool :=
-  match o with
-  | OFinish b _ | OFinishUsingStyle b | OForceDraw b | OSetTabWidth b | ORemove b => is_member s b
-  | _ => false
-  end.
+(* [forced_member_op] is defined in model/MultiScreen.v *)
 
 Section LiveForced.
   Variable W H : N.
